@@ -42,8 +42,10 @@ func (x *Exec) Choose(n int, label string, cost int) int {
 	c := 0
 	if i < len(x.prefix) {
 		c = int(x.prefix[i])
-		if c >= n && x.Diverged == "" {
-			x.Diverged = fmt.Sprintf("replay divergence at point %d (%s): recorded choice %d but arity is %d", i, label, c, n)
+		if c >= n {
+			if x.Diverged == "" {
+				x.Diverged = fmt.Sprintf("replay divergence at point %d (%s): recorded choice %d but arity is %d", i, label, c, n)
+			}
 			c = 0
 		}
 	}
